@@ -10,10 +10,10 @@ V, S = ig.V, ig.S
 MISSING, EMPTY, UNCHANGED, NONE = ig.MISSING, ig.EMPTY, ig.UNCHANGED, ig.NONE
 
 
-def gen_table_c02(rng, mutable_override=0.0):
+def gen_table_c02(rng, mutable_override=0.0, flavour=None):
     """inst_gen table plus: identity item preparers on the collections of spec instances,
     more do_not_copy attributes, (optionally) a mutable default overridden in the spec subclass"""
-    t = ig.gen_table(rng)
+    t = ig.gen_table(rng, flavour)
     k2 = {a["aid"]: a for a in t[1]["attrs"]}
     if rng.random() < 0.5:
         k2[53]["prepare_item"] = ("id",)
@@ -60,12 +60,13 @@ def noop_call(h, rng, x, cid):
 
 
 def gen_case_c02(rng, n_ops=6):
-    table = gen_table_c02(rng, mutable_override=0.5)
+    plain = rng.random() < 0.3     # K4: plain (undecorated) subclass of K2 (correspondence and oracles only)
+    table = gen_table_c02(rng, mutable_override=0.5, flavour="plain" if plain else None)
     _, heap0 = ic.resolve_table(table)
     nd = len(heap0)
     h = ig.Hist(rng, table, nd)
     h.prefer_nested = rng.random() < 0.5
-    cid = rng.choice([2, 3, 3])
+    cid = rng.choice([4, 4, 2, 3]) if plain else rng.choice([2, 3, 3])
     if rng.random() < 0.3:                      # receiver holding nothing but its defaults
         x = h.add(("construct", cid, None, []), ("inst", cid))
     else:
@@ -190,3 +191,109 @@ def dnc_family(parent_dnc, child_dnc, eager):
     S = spec_class(**kw)(type("S", (P,), {"__annotations__": {"v": int}, "v": 0,
                                           "__module__": "verif_generated", "__qualname__": "S"}))
     return K, P, Q, S
+
+
+# ------------------------------------------------------------------ oracles evaluated in Python on the observed graphs
+SENTINELS = ("missing", "empty", "unchanged")
+
+
+def must_copy(op):
+    """a copy-on-write helper call that has to hand back a derived copy (not the receiver)"""
+    if op[0] == "deepcopy":
+        return True
+    if op[0] != "helper":
+        return False
+    kind, h = op[2][0], op[3]
+    if h.get("inplace") or not h.get("if_", True):
+        return False
+    pos = h.get("pos") or []
+    real = bool(pos) and pos[0][0] not in SENTINELS
+    if kind == "with":
+        return real
+    if kind == "update":
+        return real or (bool(pos) and pos[0][0] == "missing" and bool(h.get("kw")))
+    if kind == "transform":
+        return h.get("fn") is not None or bool(h.get("kwfn"))
+    if kind in ("with_item", "update_item", "transform_item", "without_item", "reset", "reset_top"):
+        return True
+    if kind == "update_top":
+        return bool(h.get("kw")) and not pos
+    if kind == "transform_top":
+        return bool(h.get("kwfn"))
+    return False
+
+
+def op_targets(op):
+    if op[0] == "deepcopy":
+        return set()
+    kind, aid, h = op[2][0], op[2][1], op[3]
+    if aid is not None:
+        return {aid}
+    if kind == "reset_top":
+        return None            # every attribute
+    return {a for a, _ in (h.get("kw") or [])} | {a for a, _ in (h.get("kwfn") or [])}
+
+
+def dnc_attrs(table, cid):
+    base = 2 if cid in (2, 3, 4) else cid
+    for c in table:
+        if c["id"] == base:
+            return {a["aid"] for a in c["attrs"] if a.get("dnc")}
+    return set()
+
+
+def python_oracles(case, obs):
+    """(kind, index of the operation, detail) for: a copy-on-write call that returned the receiver
+    itself; a do_not_copy attribute (not addressed by the call) that the copy does not hold by identity"""
+    out = []
+    if obs is None:
+        return out
+    n_roots = case["nd"]
+    for i, ((op, _), (outc, g)) in enumerate(zip(case["ops"], obs[1])):
+        if op[0] == "same":
+            continue
+        res_idx = n_roots
+        n_roots += 1
+        if op[0] not in ("helper", "deepcopy") or outc != [0]:
+            continue
+        roots, nodes = g
+        recv, res = roots[op[1]], roots[res_idx]
+        if recv[0] != "ref" or res[0] != "ref":
+            continue
+        if op[0] == "helper" and op[3].get("inplace"):
+            continue
+        if recv == res:
+            if must_copy(op):
+                out.append(("receiver-returned", i, "a copy-on-write call handed back the receiver itself"))
+            continue
+        nr, ns = nodes[recv[1]], nodes[res[1]]
+        if nr[0] != "inst" or ns[0] != "inst":
+            continue
+        targets = op_targets(op)
+        if targets is None:
+            continue
+        fr, fs = dict(nr[2]), dict(ns[2])
+        for a in dnc_attrs(case["table"], nr[1]) - targets:
+            if a in fr and a in fs and fr[a][0] == "ref" and fs[a][0] == "ref" and fr[a] != fs[a]:
+                out.append(("dnc-duplicated", i, "do_not_copy attribute %d of K%d is not carried by identity" % (a, nr[1])))
+    return out
+
+
+def report_python_oracles(chk, pid, cases, extra, key):
+    n = hits = 0
+    seen = set()
+    for case in cases:
+        r, _ = ic.run_case(case)
+        for kind, i, detail in python_oracles(case, r):
+            hits += 1
+            sig = {"kind": kind, "helper": case["ops"][i][0][2][0] if case["ops"][i][0][0] == "helper" else "deepcopy"}
+            k = json.dumps(sig, sort_keys=True)
+            if k in seen or len(seen) >= 6:
+                continue
+            seen.add(k)
+            small = dict(case, ops=case["ops"][:i + 1])
+            rs, _ = ic.run_case(small)
+            chk.violation("%s violated by the implementation: %s: %s" % (pid, detail, small["ops"][-1][0],),
+                          dict(inst_check.describe(small, 0, rs), kind=kind), sig=sig)
+        n += 1
+    extra[key] = {"cases": n, "violations": hits}
